@@ -14,7 +14,7 @@ from mc import exact as X
 from mc.compare import num_eq, proj_eq, proj_eq_batch
 from mc.core import family, lattice
 
-REAL_GENS = ["shear", "swap", "proj", "det2", "detm3", "rot345", "trans", "proj2", "det2@int", "detm3@int", "proj2@int", "trans@int"]
+REAL_GENS = ["shear", "swap", "proj", "det2", "detm3", "rot345", "trans", "proj2", "det2@int", "detm3@int", "proj2@int", "trans@int", "corner0"]
 
 
 def to_ints(v):
